@@ -1068,7 +1068,7 @@ func c04RelativeUnits(c *core.Check) {
 	v := core.SymP("v")
 	dimOrS := lf.Params[1].Type()
 	dimT := p.Obj("css/properties", "Dimension").Type()
-	mk := func(unit string, fsNeg bool) (core.AV, error) {
+	mk := func(unit string, fsNeg, isRoot bool) (core.AV, error) {
 		f := &core.Folder{MaxDepth: 4}
 		f.Cmp = func(op token.Token, x, y core.AV) (bool, bool) {
 			// value.Value == 0 -> false ; fontSize < 0 -> fsNeg ; interface nil tests -> treat as nil (no text context)
@@ -1088,6 +1088,9 @@ func c04RelativeUnits(c *core.Check) {
 			return false, false
 		}
 		f.Call = func(_ *core.Folder, call *ssa.Call, args []core.AV) (core.AV, bool) {
+			if cal := call.Common().StaticCallee(); cal != nil && cal.Name() == "isRootElement" {
+				return core.BoolV(isRoot), true
+			}
 			switch call.Common().StaticCallee() {
 			case charRatio:
 				if b, ok := args[2].(core.BoolV); ok {
@@ -1126,9 +1129,13 @@ func c04RelativeUnits(c *core.Check) {
 		}
 		return res[0], nil
 	}
+	isRoot := false
 	check := func(unit string, fsNeg bool, want core.Poly, wantUnit string, what string) {
 		key := fmt.Sprintf("length_ unit=%s fontSizeArg<0=%v", unit, fsNeg)
-		res, err := mk(unit, fsNeg)
+		if isRoot {
+			key += " on the root element"
+		}
+		res, err := mk(unit, fsNeg, isRoot)
 		if err != nil {
 			r8.Unknown(key, p.Pos(lf.Pos()), err.Error())
 			return
@@ -1155,6 +1162,14 @@ func c04RelativeUnits(c *core.Check) {
 		check("Ch", neg, v.Mul(base).Mul(core.SymP("ratio(isCh=true)")), "Px", "value × font size × 0-advance ratio")
 		check("Rem", neg, v.Mul(rootFS), "Px", "value × root font size")
 	}
+	// on the root element itself: rem refers to the initial value in font-size only (the font size handed in is the
+	// parent's, i.e. not negative, and rootStyle holds the initial value there); in every other property it is the
+	// root's own computed font size
+	isRoot = true
+	check("Rem", true, v.Mul(own), "Px", "value × the root's own font size")
+	check("Rem", false, v.Mul(rootFS), "Px", "value × rootStyle font size (the initial value, for font-size on the root)")
+	check("Em", true, v.Mul(own), "Px", "value × font size")
+	isRoot = false
 	for _, u := range []string{"Pt", "Pc", "In", "Cm", "Mm", "Q"} {
 		check(u, false, v.Mul(core.SymP(fmt.Sprintf("L2P[%d]", unitVal[u]))), "Px", "value × LengthsToPixels[unit]")
 	}
